@@ -523,18 +523,25 @@ def parse_authority(authority: bytes) -> list[Node]:
         return out
     if b"@" in authority:
         offset += 1  # for the @, even when the userinfo is empty
+    host_end = offset + len(host)  # the span covers the host text, which may still contain percent escapes
     host = unquote_to_bytes(host)
     if host.startswith(b"["):
         if not host.endswith(b"]"):
             raise ValueError("Invalid IPv6 URL")
         with contextlib.suppress(ValueError):
-            out.append(parse_ipv6(host[1:-1]).shift(offset + 1))
+            node = parse_ipv6(host[1:-1])
+            # the brackets are one character, or three when percent encoded
+            node.start = offset + (1 if authority[offset : offset + 1] == b"[" else 3)
+            node.end = host_end - (1 if authority[host_end - 1 : host_end] == b"]" else 3)
+            out.append(node)
     else:
         try:
-            out.append(parse_ip(host).shift(offset))
+            node = parse_ip(host)
+            node.start, node.end = offset, host_end
+            out.append(node)
         except ValueError:
             if is_domain(host):
-                out.append(Node("network.domain", host, "", offset, offset + len(host)))
+                out.append(Node("network.domain", host, "", offset, host_end))
     return out
 
 
